@@ -21,6 +21,7 @@
 import copy
 import itertools
 import os
+import time as _time
 from math import isfinite, isnan, nan
 
 from mc.runner import HarnessError
@@ -50,6 +51,10 @@ CL_EXEC = "use a fresh ExecID each time"
 CL_OID = "a stable OrderID per order"
 CL_PROC = "are processed by the order object without error"
 
+CHECK_REJECT_ORDERID = True  # a cancel reject must carry the OrderID of the order's execution reports
+# (depth, last level whose states also emit arbitrary accepted reports as leaf states, state budget) of the fabrication BFS; script length of the fidelity part
+A_QUICK, A_THOROUGH = (5, -1, 400), (7, 2, 3000)
+B_QUICK, B_THOROUGH = 5, 6
 FULL_LIB = False  # thorough tier: FIXSchema.validate on every distinct message content
 _G = {}  # per-process lazies: library schema, reference dictionary, enum maps, validation cache
 
@@ -141,16 +146,99 @@ def validity(m, kind):
 
 
 # --------------------------------------------------------------------------
-# real objects + harness-side tracking
+# real objects + the harness-side exchange model
 # --------------------------------------------------------------------------
 
 class Track:
-    """What the harness knows independently about the chain so far."""
+    """What the harness knows independently about the chain so far: the ids it has
+    seen and a small exchange-side model of the order (R8-lite) - what the simulated
+    exchange has said so far.  Never read back from the order object."""
 
-    def __init__(self):
+    def __init__(self, price):
         self.exec_ids = set()
         self.order_id = None  # OrderID of the first execution report fabricated for the order
         self.reqs = {}  # "F"/"G" -> last request message of that kind
+        self.qty = QTY_A
+        self.price = price
+        self.cum = 0
+        self.leaves = 0  # nothing reported yet
+        self.pending = None  # request kind waiting for an answer
+        self.finished = False
+
+    def clone(self):
+        t = Track(self.price)
+        t.exec_ids = set(self.exec_ids)
+        t.order_id, t.reqs, t.qty = self.order_id, dict(self.reqs), self.qty
+        t.cum, t.leaves, t.pending, t.finished = self.cum, self.leaves, self.pending, self.finished
+        return t
+
+    def model_key(self):
+        return (float(self.qty), float(self.price), float(self.cum), float(self.leaves), self.pending, self.finished)
+
+    def after_report(self, op):
+        _, cl, et, st, cum, lv, last, px, oq, orig = op
+        if cum is not None:
+            self.cum = cum
+        if lv is not None:
+            self.leaves = lv
+        if et == "5":
+            if oq is not None:
+                self.qty = oq
+            if px is not None:
+                self.price = px
+            self.pending = None
+        if st in FINISHED:
+            self.finished = True
+            self.pending = None
+
+
+# (ExecType, OrdStatus) pairs of the FIX 4.4 order state change matrices the model lets the exchange send
+PLAUSIBLE = {("A", "A"), ("0", "0"), ("8", "8"), ("F", "1"), ("F", "2"), ("4", "4"), ("6", "6"), ("E", "E"),
+             ("5", "0"), ("5", "1"), ("C", "C"), ("9", "9"), ("3", "3"), ("7", "7"), ("B", "B")}
+
+
+def plausible(tr, op):
+    """Would an exchange that keeps its books send this report now? (chains are built from these only)"""
+    _, cl, et, st, cum, lv, last, px, oq, orig = op
+    if tr.finished:
+        return False
+    pair = (et, st)
+    if pair not in PLAUSIBLE and not (et == "F" and ((st == "6" and tr.pending == "F") or (st == "E" and tr.pending == "G"))):
+        return False
+    if (px is not None or oq is not None) and et != "5":
+        return False
+    if et == "5" and (tr.pending != "G" or (px is None and oq is None)):
+        return False
+    if et == "6" and tr.pending != "F":
+        return False
+    if et == "E" and tr.pending != "G":
+        return False
+    eff = tr.qty if oq is None else oq
+    cum_eff = tr.cum if cum is None else cum
+    lv_eff = tr.leaves if lv is None else lv
+    if et == "F":
+        if not (cum_eff > tr.cum and last is not None and last == cum_eff - tr.cum):
+            return False
+        if st in ("1", "2") and (st == "2") != (cum_eff == eff):
+            return False
+    else:
+        if cum_eff != tr.cum or last is not None:
+            return False
+        if et == "5" and (st == "1") != (cum_eff > 0):
+            return False
+    if cum_eff > eff:
+        return False
+    if st in FINISHED:
+        return lv_eff == 0
+    if st == "A" and lv is None:
+        return True
+    return lv_eff == eff - cum_eff
+
+
+def plausible_reject(tr, kind, st):
+    if tr.finished or tr.pending != kind:
+        return False
+    return st == ("0" if tr.cum == 0 else "1")
 
 
 def new_state(names):
@@ -160,7 +248,7 @@ def new_state(names):
     root, ticker, side, price = names
     ft = FIXTester(schema=None)
     o = FIXNewOrderSingle(root, ticker, side=side, price=price, qty=QTY_A)
-    return ft, o, Track()
+    return ft, o, Track(price)
 
 
 def _f(x):
@@ -186,11 +274,14 @@ def apply_op(ft, o, tr, op):
         o.new_req()
     elif k == "cxl":
         tr.reqs["F"] = ft.fix_cxl_request(o)
+        tr.pending = "F"
     elif k == "rep":
         tr.reqs["G"] = ft.fix_rep_request(o, _f(op[1]), _f(op[2]))
+        tr.pending = "G"
     elif k == "rej":
         m = ft.fix_cxlrep_reject_msg(tr.reqs[op[1]], G()["ST"][op[2]])
         o.process_cancel_rej_report(m)
+        tr.pending = None
     elif k == "er":
         m = er_call(ft, o, op)
         d = dict_of(m)
@@ -198,6 +289,7 @@ def apply_op(ft, o, tr, op):
         if tr.order_id is None:
             tr.order_id = d.get("37")
         o.process_execution_report(m)
+        tr.after_report(op)
     else:
         raise HarnessError(f"unknown op {op}")
 
@@ -213,8 +305,8 @@ def state_key(ft, o, tr):
     return (
         type(o.status).__name__, str(o.status), o.clord_id in ft.registered_orders,
         o.orig_clord_id is not None, o.order_id is not None, tr.order_id is not None,
-        repr(o.cum_qty), repr(o.leaves_qty), repr(o.qty), repr(o.price), repr(o.avg_px),
-        tuple(sorted(tr.reqs)),
+        float(o.cum_qty), float(o.leaves_qty), float(o.qty), float(o.price), repr(o.avg_px),
+        tuple(sorted(tr.reqs)), tr.model_key(),
     )
 
 
@@ -234,15 +326,16 @@ def _dedupe(xs):
     return out
 
 
-def other_qty(o):
-    return QTY_B if float(o.qty) == float(QTY_A) else QTY_A
+def other_qty(tr):
+    return QTY_B if float(tr.qty) == float(QTY_A) else QTY_A
 
 
-def er_grid(o, et):
-    """All 'er' ops of one ExecType in state o, simplest (most defaulted) first."""
-    q = o.qty
-    q2 = other_qty(o)
-    p2 = o.price + 1
+def er_grid(o, tr, et):
+    """All 'er' ops of one ExecType in one state, simplest (most defaulted) first.
+    q = order quantity, E = q' if given else q, c0 = CumQty reported so far."""
+    q, c0 = tr.qty, tr.cum
+    q2 = other_qty(tr)
+    p2 = tr.price + 1
     ids = ["cur"] + (["orig"] if o.orig_clord_id else [])
     cums = _dedupe([None, 0, q / 2, q])
     for st in ORD_STATUSES:
@@ -250,14 +343,14 @@ def er_grid(o, et):
             for oq in (None, q2):
                 eff = q if oq is None else oq
                 for cum in cums:
-                    cum_eff = o.cum_qty if cum is None else cum
+                    cum_eff = c0 if cum is None else cum
                     lvs = [None, 0, eff / 2, eff]
                     if 0 <= eff - cum_eff:
                         lvs.append(eff - cum_eff)
                     for lv in _dedupe(lvs):
                         lasts = [None, q / 2, q]
-                        if cum_eff - o.cum_qty > 0:
-                            lasts.append(cum_eff - o.cum_qty)
+                        if cum_eff - c0 > 0:
+                            lasts.append(cum_eff - c0)
                         for last in _dedupe(lasts):
                             for px in (None, p2):
                                 for orig in (None, "id"):
@@ -277,13 +370,14 @@ class Acc:
 
     def __init__(self):
         self.viol = {}  # signature -> dict
-        self.succ = {}  # key -> op (first = simplest)
+        self.succ = {}  # key -> (op, wild)
         self.calls = 0
         self.accepted = 0
         self.refused_assert = 0
         self.refused_other = 0
         self.processed = 0
         self.outcomes = set()
+        self.t0 = _time.process_time()
 
     def v(self, sig, clause, detail, replay):
         x = self.viol.get(sig)
@@ -292,10 +386,16 @@ class Acc:
         else:
             x["count"] += 1
 
+    def add_succ(self, key, op, wild):
+        old = self.succ.get(key)
+        if old is None or (old[1] and not wild):
+            self.succ[key] = (op, wild)
+
     def pack(self):
-        return {"viol": list(self.viol.values()), "succ": list(self.succ.items()), "calls": self.calls,
-                "accepted": self.accepted, "ra": self.refused_assert, "ro": self.refused_other,
-                "processed": self.processed, "outcomes": sorted(self.outcomes)}
+        return {"viol": list(self.viol.values()), "succ": [(k, op, w) for k, (op, w) in self.succ.items()],
+                "calls": self.calls, "accepted": self.accepted, "ra": self.refused_assert, "ro": self.refused_other,
+                "processed": self.processed, "outcomes": sorted(self.outcomes, key=repr),
+                "lib_calls": G().get("lib_calls", 0), "cpu": _time.process_time() - self.t0}
 
 
 def _num(d, tag):
@@ -307,7 +407,7 @@ def _num(d, tag):
 
 def judge_er_pair(acc, names, path, ft, o, tr, op, seen_exec):
     """Fabricate the report of `op` twice in a row on (ft, o), judge both, process the
-    first on a copy of the order.  Returns the processed copy or None."""
+    first on a copy of the order.  Returns (processed copy, OrderID) or None."""
     acc.calls += 1
     try:
         m1 = er_call(ft, o, op)
@@ -329,7 +429,7 @@ def judge_er_pair(acc, names, path, ft, o, tr, op, seen_exec):
     # -- quantities
     cumv, lvv, oqv = _num(d1, "14"), _num(d1, "151"), _num(d1, "38")
     if oqv is None and "38" not in d1:
-        oqv = float(o.qty if oq is None else oq)
+        oqv = float(tr.qty if oq is None else oq)
     if None not in (cumv, lvv, oqv) and all(map(isfinite, (cumv, lvv, oqv))):
         if cumv + lvv > oqv + 1e-9:
             acc.v(f"qty_sum|cum={given(cum)},leaves={given(lv)},order_qty={given(oq)}", CL_SUM,
@@ -374,38 +474,42 @@ def judge_er_pair(acc, names, path, ft, o, tr, op, seen_exec):
 
 
 def expand_er(item):
-    """Work item: (names, path, exec type) -> the grid slice of one ExecType in one state."""
-    names, path, et = item
+    """Work item: (names, path, mode, exec type) -> the grid slice of one ExecType in one state.
+    mode 1: successors = exchange-consistent reports + every other accepted report as a leaf;
+    mode 0: exchange-consistent successors only; mode -1: leaf (judged, no successors)."""
+    names, path, wild_left, et = item
     acc = Acc()
     ft, o, tr = build(names, path)
     snap = order_snapshot(o)
     reg = set(ft.registered_orders)
     seen_exec = set(tr.exec_ids)
-    for op in er_grid(o, et):
+    for op in er_grid(o, tr, et):
         r = judge_er_pair(acc, names, path, ft, o, tr, op, seen_exec)
         if r is None:
             continue
+        wild = not plausible(tr, op)
+        if wild_left < 0 or (wild and wild_left == 0):
+            continue
         oc, oid = r
-        tr2 = Track()
-        tr2.order_id = tr.order_id if tr.order_id is not None else oid
-        tr2.reqs = tr.reqs
-        key = state_key(ft, oc, tr2)
-        if key not in acc.succ:
-            acc.succ[key] = op
+        tr2 = tr.clone()
+        if tr2.order_id is None:
+            tr2.order_id = oid
+        tr2.after_report(op)
+        acc.add_succ(state_key(ft, oc, tr2), op, wild)
     if order_snapshot(o) != snap or set(ft.registered_orders) != reg:
         raise HarnessError("fix_exec_report_msg changed the order / the registry: exploration by shared state is unsound")
     return acc.pack()
 
 
-REP_VARIANTS = [("p", None), (None, "q"), ("p", "q")]
+REP_VARIANTS = [(True, False), (False, True), (True, True)]
 
 
 def expand_misc(item):
-    """Work item: (names, path) -> every non-report op in that state + cancel/replace rejects."""
-    names, path = item
+    """Work item: (names, path, wild budget left) -> every non-report op in that state + cancel/replace rejects."""
+    names, path, wild_left = item
     acc = Acc()
     ft, o, tr = build(names, path)
-    q2, p2 = other_qty(o), o.price + 1
+    q2, p2 = other_qty(tr), tr.price + 1
     ops = [["reg"], ["new"], ["cxl"]] + [["rep", p2 if a else None, q2 if b else None] for a, b in REP_VARIANTS]
     for op in ops:
         ft2, o2, tr2 = build(names, path)
@@ -420,7 +524,8 @@ def expand_misc(item):
             continue
         acc.accepted += 1
         acc.outcomes.add((op[0], str(o2.status)))
-        acc.succ.setdefault(state_key(ft2, o2, tr2), op)
+        if wild_left >= 0:
+            acc.add_succ(state_key(ft2, o2, tr2), op, False)
     # cancel / replace rejects for every request kind x status
     g = G()
     for kind in sorted(tr.reqs):
@@ -442,7 +547,7 @@ def expand_misc(item):
             info = {"op": op, "reject": d, "order": {"status": str(o2.status), "order_id": o2.order_id}}
             for cause in validity(m, "cancel_reject"):
                 acc.v(f"valid_dictionary|{cause}", CL_VALID, dict(info, complaint=cause), rep)
-            if tr2.order_id is not None and d.get("37") != tr2.order_id:
+            if CHECK_REJECT_ORDERID and tr2.order_id is not None and d.get("37") != tr2.order_id:
                 acc.v("orderid_stable|cancel_reject_differs_from_execution_reports", CL_OID,
                       dict(info, expected=tr2.order_id, observed=d.get("37")), rep)
             try:
@@ -453,12 +558,16 @@ def expand_misc(item):
                 acc.v(f"process_no_error|cancel_reject:{type(e).__name__}", CL_PROC,
                       dict(info, exception=f"{type(e).__name__}: {e}"), rep)
                 continue
-            acc.succ.setdefault(state_key(ft2, o2, tr2), op)
+            wild = not plausible_reject(tr, kind, st)
+            if wild_left < 0 or (wild and wild_left == 0):
+                continue
+            tr2.pending = None
+            acc.add_succ(state_key(ft2, o2, tr2), op, wild)
     return acc.pack()
 
 
 def expand(item):
-    return expand_er(item) if len(item) == 3 else expand_misc(item)
+    return expand_er(item) if len(item) == 4 else expand_misc(item)
 
 
 # --------------------------------------------------------------------------
@@ -469,14 +578,15 @@ def session_grid():
     yield "msg_logon", [], {}
     yield "msg_logon", [None], {}
     yield "msg_logon", [{}], {}
-    yield "msg_logon", [{108: 60}], {}
-    yield "msg_logon", [{98: 0, 108: 1}], {}
-    yield "msg_logon", [{141: "Y"}], {}
-    yield "msg_logon", [{553: "user", 554: "secret"}], {}
-    yield "msg_logon", [{108: 30, 141: "N", 789: 5}], {}
+    yield "msg_logon", [{"108": 60}], {}
+    yield "msg_logon", [{"98": 0, "108": 1}], {}
+    yield "msg_logon", [{"141": "Y"}], {}
+    yield "msg_logon", [{"553": "user", "554": "secret"}], {}
+    yield "msg_logon", [{"108": 30, "141": "N", "789": 5}], {}
     yield "msg_logout", [], {}
-    for t in (None, "abc", 123, "TEST-1", 1700000001):
-        yield "msg_heartbeat", ([] if t is None else [t]), {}
+    yield "msg_heartbeat", [], {}
+    for t in ("abc", 123, "TEST-1", 1700000001):
+        yield "msg_heartbeat", [t], {}
     yield "msg_heartbeat", [], {"test_req_id": "kw"}
     for t in ("abc", 123, "TEST-1", 1700000001):
         yield "msg_test_request", [t], {}
@@ -491,39 +601,43 @@ def session_grid():
             yield "msg_resend_request", [b, e], {}
 
 
-def run_session(ctx_like, names):
-    from asyncfix import FIXTester
+SESSION_FT = [("plain", []), ("with_order", [["new"], ["reg"], ["er", "cur", "0", "0", None, None, None, None, None, None]])]
 
+
+def session_call(acc, names, ft_kind, name, args, kw):
+    path = dict(SESSION_FT)[ft_kind]
+    ft, _o, _tr = build(names, path)
+    acc.calls += 1
+    fn = getattr(ft, name, None)
+    if fn is None:
+        raise HarnessError(f"FIXTester has no factory {name}")
+    try:
+        m = fn(*copy.deepcopy(args), **kw)
+    except AssertionError:
+        acc.refused_assert += 1
+        return
+    except Exception:
+        acc.refused_other += 1
+        return
+    acc.accepted += 1
+    acc.outcomes.add(("session", name, str(getattr(m, "msg_type", None))))
+    rep = {"part": "s", "names": list(names), "factory": name, "args": args, "kw": kw, "ft": ft_kind}
+    try:
+        d = dict_of(m)
+        causes = validity(m, f"session:{name}")
+    except Exception as e:
+        causes = [f"session:{name}:not_a_message:{type(e).__name__}"]
+        d = repr(m)
+    for cause in causes:
+        acc.v(f"valid_dictionary|{cause}", CL_VALID,
+              {"factory": name, "args": args, "kw": kw, "message": d, "complaint": cause}, rep)
+
+
+def run_session(names):
     acc = Acc()
-    for ft_kind in ("plain", "with_order"):
-        ft = FIXTester(schema=None)
-        if ft_kind == "with_order":
-            ft, o, tr = build(names, [["new"], ["reg"], ["er", "cur", "0", "0", None, None, None, None, None, None]])
+    for ft_kind, _p in SESSION_FT:
         for name, args, kw in session_grid():
-            acc.calls += 1
-            fn = getattr(ft, name, None)
-            if fn is None:
-                raise HarnessError(f"FIXTester has no factory {name}")
-            try:
-                m = fn(*copy.deepcopy(args), **kw)
-            except AssertionError:
-                acc.refused_assert += 1
-                continue
-            except Exception:
-                acc.refused_other += 1
-                continue
-            acc.accepted += 1
-            acc.outcomes.add(("session", name, str(getattr(m, "msg_type", None))))
-            rep = {"part": "s", "names": list(names), "factory": name, "args": args, "kw": kw, "ft": ft_kind}
-            try:
-                d = dict_of(m)
-                causes = validity(m, f"session:{name}")
-            except Exception as e:
-                causes = [f"session:{name}:not_a_message:{type(e).__name__}"]
-                d = repr(m)
-            for cause in causes:
-                acc.v(f"valid_dictionary|{cause}", CL_VALID, {"factory": name, "args": args, "kw": kw, "message": d,
-                                                             "complaint": cause}, rep)
+            session_call(acc, names, ft_kind, name, args, kw)
     return acc
 
 
@@ -533,82 +647,101 @@ def run_session(ctx_like, names):
 
 def fold(ctx, totals, res):
     ctx.merge_violations(res["viol"])
-    for k in ("calls", "accepted", "ra", "ro", "processed"):
+    for k in ("calls", "accepted", "ra", "ro", "processed", "cpu"):
         totals[k] = totals.get(k, 0) + res[k]
     for oc in res["outcomes"]:
         ctx.outcomes.add(tuple(oc))
 
 
-def run_a(ctx, names, depth):
-    root = []
-    ft, o, tr = build(names, root)
-    seen = {state_key(ft, o, tr): root}
-    frontier = [root]
+def run_a(ctx, names, depth, wild_levels, max_states):
+    """Level-synchronous BFS.  States of level <= wild_levels also emit every other accepted
+    report / reject as a leaf state (expanded with the full grid, not extended)."""
+    ft, o, tr = build(names, [])
+    seen = {state_key(ft, o, tr): []}
+    extendable = set(seen)  # keys enqueued as chain states (not only as leaves)
+    frontier = [([], 1 if wild_levels >= 0 else 0)]
     totals = {}
     levels = []
+    expanded = 0
+    unexpanded = 0
     for level in range(depth + 1):
+        if expanded + len(frontier) > max_states:
+            keep = max(0, max_states - expanded)
+            ctx.cap(f"(a) state budget {max_states}: {len(frontier) - keep} states of level {level} not expanded")
+            unexpanded += len(frontier) - keep
+            frontier = frontier[:keep]
         items = []
-        for p in frontier:
-            items.append((names, p))
+        for p, w in frontier:
+            items.append((names, p, w))
             for et in EXEC_TYPES:
-                items.append((names, p, et))
+                items.append((names, p, w, et))
         results = ctx.pmap(expand, items, chunk=1)
         nxt = []
         for item, res in zip(items, results):
             fold(ctx, totals, res)
-            if level == depth:
-                continue
-            for key, op in res["succ"]:
-                key = tuple(tuple(x) if isinstance(x, list) else x for x in key)
-                if key not in seen:
-                    seen[key] = item[1] + [op]
-                    nxt.append(seen[key])
+        for want_wild in (False, True):  # chain successors first, leaves second
+            for item, res in zip(items, results):
+                for key, op, wild in res["succ"]:
+                    if wild != want_wild:
+                        continue
+                    if key not in seen or (not wild and key not in extendable):
+                        seen[key] = item[1] + [op]
+                        if not wild:
+                            extendable.add(key)
+                        nxt.append((seen[key], -1 if wild else (1 if level + 1 <= wild_levels else 0)))
         levels.append(len(frontier))
+        expanded += len(frontier)
         frontier = nxt
         if not frontier:
             break
-    explored = sum(levels)
-    return totals, levels, explored, len(seen), seen
+    else:
+        unexpanded += len(frontier)
+    return totals, levels, expanded, unexpanded, seen
 
 
 def run(ctx):
+    global FULL_LIB
     names = POOL[ctx.seed % len(POOL)]
     G()
-    depth = 3 if ctx.quick else 5
-    blen = 4 if ctx.quick else 5
+    FULL_LIB = not ctx.quick
+    depth, wild, max_states = (A_QUICK if ctx.quick else A_THOROUGH)
+    blen = B_QUICK if ctx.quick else B_THOROUGH
 
     # ---- (a) fabrication
-    totals, levels, explored, known, seen = run_a(ctx, names, depth)
-    sacc = run_session(ctx, names)
-    fold(ctx, totals, sacc.pack())
+    totals, levels, expanded, unexpanded, seen = run_a(ctx, names, depth, wild, max_states)
+    fold(ctx, totals, run_session(names).pack())
     # ---- (b) fidelity
     fb = c20_world.run_fidelity(ctx, blen)
 
     ctx.rule = (
-        "(a) BFS over order states (key: status and its type, registered, OrigClOrdID set, OrderID set, cum, leaves, "
-        "qty, price, avg px, request kinds made) reachable through the helper from a fresh order by "
-        "register / new_req / cancel request / replace request / every accepted execution report / every accepted "
-        "cancel-replace reject; in every state expanded the full grid ExecType(17) x OrdStatus(14) x cum x leaves x last x "
-        "price x order_qty x ClOrdID(own ids) x OrigClOrdID is called on the real helper, every returned report is "
-        "fabricated twice in a row, judged, and processed by a copy of the real order; non-trivial = helper call that "
-        "returned a message. (b) every clean session script (initiator Logon, then initiator/acceptor app message, "
-        "TestRequest, Heartbeat, Logout; nothing after a Logout) up to the length bound x 2 start-counter pairs, run "
-        "against FIXTester(connection=conn) and against a real AsyncFIXDummyServer on a fake link, compared after every step"
+        "(a) BFS over order states (key: order status and its type, registered, OrigClOrdID set, OrderID set, cum, leaves, "
+        "qty, price, avg px, request kinds made, exchange-model state) reachable from a fresh order through the helper by "
+        "register / new_req / cancel request / replace request / every accepted execution report and cancel-replace "
+        "reject that an exchange keeping its books could send (thorough: plus, from the first levels, every other accepted "
+        "report as a leaf state); in "
+        "every state expanded the full grid ExecType(17) x OrdStatus(14) x cum x leaves x last x price x order_qty x "
+        "ClOrdID(own ids) x OrigClOrdID is called on the real helper, every returned report is fabricated twice in a "
+        "row, judged, and processed by a copy of the real order; non-trivial = helper call that returned a message. "
+        "(b) every clean session script (initiator Logon, then initiator/acceptor app message, TestRequest, Heartbeat, "
+        "Logout; nothing after a Logout) up to the length bound x 2 start-counter pairs, run against "
+        "FIXTester(connection=conn) and against a real AsyncFIXDummyServer on a fake link, compared after every step"
     )
-    ctx.bounds = {"a_depth": depth, "a_states_per_level": levels, "a_states_expanded": explored,
-                  "a_states_known": known, "grid": "17 x 14 x {nan,0,q/2,q} x {nan,0,E/2,E,E-cum} x {nan,q/2,q,cum-cum0} x "
-                  "{nan,p+1} x {nan,q'} x own ClOrdIDs x {None,id}", "quantities": [QTY_A, QTY_B],
+    ctx.bounds = {"a_depth": depth, "a_arbitrary_report_leaves_from_levels_upto": wild, "a_state_budget": max_states,
+                  "a_states_per_level": levels, "a_states_expanded": expanded,
+                  "a_states_found_not_expanded": unexpanded,
+                  "grid": "17 x 14 x {nan,0,q/2,q} x {nan,0,E/2,E,E-cum} x {nan,q/2,q,cum-cum0} x {nan,p+1} x {nan,q'} x "
+                          "own ClOrdIDs x {None,id}", "quantities": [QTY_A, QTY_B],
                   "b_script_len": blen, "b_scripts": fb["scripts"], "b_start_counters": c20_world.STARTS}
-    ctx.count(states=explored + fb["scripts"], transitions=totals["calls"] + fb["steps"],
-              traces=explored + 2 * fb["scripts"], evaluations=totals["accepted"] + fb["comparisons"],
+    ctx.count(states=expanded + fb["scripts"], transitions=totals["calls"] + fb["steps"],
+              traces=expanded + 2 * fb["scripts"], evaluations=totals["accepted"] + fb["comparisons"],
               nontrivial=totals["accepted"] + fb["scripts"], helper_calls=totals["calls"],
               helper_returned=totals["accepted"], helper_refused_assertion=totals["ra"],
               helper_refused_other_exception=totals["ro"], processed_by_order=totals["processed"],
               fidelity_steps=fb["steps"])
-    if len(levels) == depth + 1 and levels[-1] > 0:
-        ctx.notes.append(f"(a) BFS stopped at the depth bound {depth} with {levels[-1]} states in the last level "
-                         f"(their successors are not expanded)")
-    for k in list(seen.values())[:: max(1, len(seen) // 3)][:3]:
+    if unexpanded:
+        ctx.notes.append(f"(a) {unexpanded} states found at the depth bound / beyond the budget were not expanded")
+    paths = list(seen.values())
+    for k in paths[:: max(1, len(paths) // 3)][:3]:
         ctx.sample({"part": "a", "path": k})
     for s in fb["samples"]:
         ctx.sample(s)
@@ -617,6 +750,8 @@ def run(ctx):
         "an exception raised by the helper itself (AssertionError or other) is a refusal: the argument combination is out of scope",
         "ClOrdID arguments are restricted to the ids the order currently holds (a foreign id is rejected by the order object; pinned by test_exec_report_clord_mismatch)",
         "order is a LIMIT order with finite price and a string account; quantities 10 and 12",
+        "chains are extended with exchange-consistent reports only (all other accepted reports are judged and processed one step deep)",
+        "quick tier: FIXSchema.validate (0.6 ms per call) runs on every message showing a new tag set or a new (tag, value) pair; the independent dictionary reading runs on every message; thorough tier: FIXSchema.validate on every distinct content",
         "fidelity: no virtual time passes during a script (heartbeat timers never fire); application hooks do not send",
         "fidelity: the real acceptor application mirrors the helper calls: send_msg(app/Heartbeat/Logout), send_test_req()",
     ]
@@ -630,13 +765,8 @@ def replay(ctx, rep):
     names = tuple(rep["names"])
     acc = Acc()
     if part == "s":
-        from asyncfix import FIXTester
-
-        sacc = run_session(ctx, names)
-        want = (rep["factory"], rep["args"], rep["kw"])
-        return [v for v in sacc.viol.values()
-                if (v["replay"]["factory"], v["replay"]["args"], v["replay"]["kw"]) == want
-                or True and v["replay"]["factory"] == rep["factory"] and v["replay"]["args"] == rep["args"]]
+        session_call(acc, names, rep["ft"], rep["factory"], rep["args"], rep["kw"])
+        return list(acc.viol.values())
     path, op = rep["path"], rep["op"]
     try:
         ft, o, tr = build(names, path)
@@ -646,6 +776,6 @@ def replay(ctx, rep):
         judge_er_pair(acc, names, path, ft, o, tr, op, set(tr.exec_ids))
         return list(acc.viol.values())
     if op[0] == "rej":
-        res = expand_misc((names, path))
+        res = expand_misc((names, path, 0))
         return [v for v in res["viol"] if v["replay"]["op"] == op]
     return []
